@@ -3,13 +3,16 @@ LEVEL = "other"
 CONTRACT_MODULES = ["contracts.optimize", "contracts.matrixutils"]
 FUNCTIONS = ["Optimize.step@take-best-block", "Optimize.step@start-row-block", "Optimize.reload@restore-block", "Optimize.step@self-calls",
              "Optimize.reload@self-calls", "Optimize.add_point_to_log@self-calls", "Optimize.tag@self-calls", "Optimize.clear_log@self-calls"]
+# every method of Optimize that touches self._log, directly or through self-calls (read off the real class on every run)
+from contracts.optimize import LOG_METHODS as _LM      # noqa: E402
+FUNCTIONS += [f"Optimize.{m}@log-aligned" for m in _LM]
 RAC = "rac/c15.py"
 RAC_BUDGET = {"quick": 60, "thorough": 900}
 DESIGN_REF = "DESIGN.md section 4, C15"
-TECHNIQUE = "contract-based deductive verification of the take_best / starting-row / restore blocks of Optimize.step and Optimize.reload (pyvc block contracts over the log's penalty column; z3) + run-time contracts: every row of every log reloaded and re-evaluated independently"
+TECHNIQUE = "contract-based deductive verification of the take_best / starting-row / restore blocks of Optimize.step and Optimize.reload (pyvc block contracts over the log's penalty column; z3) and of the class invariant 'all log columns have the same length on every normal and exceptional exit' over every Optimize method that touches the log (pyvc column-alignment engine) + run-time contracts: every row of every log reloaded and re-evaluated independently"
 TRUSTED = ["floats are treated as reals (DESIGN 2.3(1)); every 'up to rounding' clause is run-time only", 'numpy-lite model of pyvc/num_engine.py (vectors as length + array, in-place scaling as a scalar factor, np.abs/argmin/all, zip/enumerate/range) and, for element-wise numpy code, the pointwise abstraction of pyvc/pointwise_engine.py', 'numpy / LAPACK / scipy themselves', 'z3 (NRA/LRA + quantifiers), cvc5']
-ASSUMPTIONS = ["reload(i) reproduces row i's penalty (determinism of the user function) -- assumed by the take_best block, checked at run time", 'the last logged row describes the point in the containers when the take_best block starts (established by the logging code of the step loop; run-time checked)']
+ASSUMPTIONS = ["log alignment: len, hasattr, isinstance, range, ''.join and _bool_array_to_string do not raise; in the step loop, set_knobs_from_x / _extract_knob_values after a successful solver.step re-write / read back the values the merit function has just written and are assumed not to raise (deterministic containers); attribute loads do not raise; asynchronous exceptions (KeyboardInterrupt) are outside the model", "reload(i) reproduces row i's penalty (determinism of the user function) -- assumed by the take_best block, checked at run time", 'the last logged row describes the point in the containers when the take_best block starts (established by the logging code of the step loop; run-time checked)']
 BOUNDED = ["each row is truthful (penalty and targets equal an independent evaluation at the row's knobs, reload re-logs the same penalty): run-time only, on random call sequences (step/solve/reload/tag/enable/disable/clear_log) over generated problems"]
-EXPLANATION = "proved: after the take_best block the current point is within tolerance or its penalty is <= every penalty logged since the row of the call's starting point (np.argmin over log[i_log_start:], reload of i_best + i_log_start); i_log_start is the index of the row logged for the starting point; reload's loop restores value and flag of every knob of the row"
+EXPLANATION = "proved: a log row is appended completely or not at all -- at every return, raise, assert, may-raise call, subscript and loop edge of every log-touching method all eleven columns have the same length (so row i of every column describes the same point); after the take_best block the current point is within tolerance or its penalty is <= every penalty logged since the row of the call's starting point (np.argmin over log[i_log_start:], reload of i_best + i_log_start); i_log_start is the index of the row logged for the starting point; reload's loop restores value and flag of every knob of the row"
 LEVEL_TEXT = "Mixed: the functions and blocks listed under `functions` are proved (every obligation discharged from the real source on every run); the clauses listed under `bounded` are run-time contract checks on generated problems. Never claimed as proof."
 LEVEL_NOTE = "See TRUSTED / BOUNDED / ASSUMPTIONS in the evidence file."
